@@ -31,7 +31,6 @@ Proof. exact Props.C10.C10_lex_kotlin. Qed.
 Print Assumptions Props.C10.C10_lex_kotlin.
 Goal forall (uc : unicode) (cfg : sc_config) (pd : parsed) (text : str),
     Proofs.C10_SC.c10_sc_cfg_ok cfg = true -> dom_C10 CSC pd = true ->
-    Proofs.C10_SC.c10_scala_brace_class (sc_package cfg) pd = false ->
     sc_generate uc cfg pd = Ok text -> good_C10_lex CSC text = true.
 Proof. exact Props.C10.C10_lex_scala. Qed.
 Print Assumptions Props.C10.C10_lex_scala.
@@ -82,10 +81,17 @@ Goal forall (uc : unicode) (cfg : py_config) (pd : parsed) (fd : file_decls),
     py_file_decls uc cfg pd = Ok fd -> good_C10_kw CPY (fd_decls fd) = true.
 Proof. exact Props.C10.C10_kw_python. Qed.
 Print Assumptions Props.C10.C10_kw_python.
-Goal exists cfg pd text, dom_C10 CSC pd = true /\ known_C10 CSC (sc_package cfg) pd = ["C10-scala-package-brace"%string] /\
-    sc_generate uc_exec cfg pd = Ok text /\ good_C10_lex CSC text = false.
-Proof. exact Props.C10.C10_scala_package_brace_refuted. Qed.
-Print Assumptions Props.C10.C10_scala_package_brace_refuted.
+Goal Proofs.C10_SC.c10_sc_cfg_ok Proofs.C10.w_brace_cfg = true /\ contains_char sc_ch_dot (sc_package Proofs.C10.w_brace_cfg) = false /\
+  dom_C10 CSC Proofs.C10.w_brace_pd = true /\ c10_has_items Proofs.C10.w_brace_pd = true /\
+  known_C10 CSC (sc_package Proofs.C10.w_brace_cfg) Proofs.C10.w_brace_pd = [] /\
+  sc_generate uc_exec Proofs.C10.w_brace_cfg Proofs.C10.w_brace_pd = Ok Proofs.C10.w_brace_text /\
+  contains_sub (lit "case class A (") Proofs.C10.w_brace_text = true /\ contains_sub (lit "}") Proofs.C10.w_brace_text = false /\
+  good_C10_lex CSC Proofs.C10.w_brace_text = true /\
+  exists text, dom_C10 CSC Proofs.C10.w_prog = true /\ known_C10 CSC (sc_package Proofs.C10.w_brace_cfg) Proofs.C10.w_prog = [] /\
+    sc_generate uc_exec Proofs.C10.w_brace_cfg Proofs.C10.w_prog = Ok text /\ contains_sub (lit "type ULong = Int") text = true /\
+    contains_sub (lit "case class A (") text = true /\ good_C10_lex CSC text = true.
+Proof. exact Props.C10.C10_scala_package_brace_fixed. Qed.
+Print Assumptions Props.C10.C10_scala_package_brace_fixed.
 Goal exists cfg pd text, dom_C10 CSC pd = true /\ known_C10 CSC (sc_package cfg) pd = ["C10-scala-default"%string] /\
     sc_generate uc_exec cfg pd = Ok text /\ contains_sub (lit "x: String = _") text = true.
 Proof. exact Props.C10.C10_scala_default_refuted. Qed.
